@@ -345,3 +345,47 @@ def near_twin(ch, base):
         return c
     except (IllFormed, Unsupported) as e:
         raise Reject('illformed: %s' % e)
+
+
+def boundary_cases(tier='quick'):
+    """[(name, Case)]: hand-laid-out messages at the numeric limits of the format's own fields -- replication counts of
+    255 and beyond 8 / toward 16 bits, 63 replicated descriptors, bitmaps longer than 255 bits, subset counts beyond
+    255, the longest character fields, long descriptor lists, a long section 2.  Deterministic (no random choices)."""
+    out = []
+    base = frame.default_meta(4)
+    base.update({'master_table_version': 33, 'n_subsets': 1, 'is_compressed': False})
+
+    def meta(**kw):
+        m = dict(frame.default_meta(kw.get('edition', 4)))
+        m.update({'master_table_version': 33, 'n_subsets': 1, 'is_compressed': False})
+        m.update(kw)
+        return m
+
+    def add(name, *a, **kw):
+        out.append((name, case_from_raws(*a, **kw)))
+    add('fixed_replication_255', meta(), [101255, 1001], subsets=[[k % 100 for k in range(255)]])
+    add('63_replicated_descriptors', meta(), [163002] + [1001, 1002] * 31 + [1001], subsets=[[k % 90 for k in range(126)]])
+    for n in ([254, 256] if tier == 'quick' else [254, 255, 256, 1000, 4095]):
+        fac = 31001 if n <= 254 else 31002
+        add('delayed_replication_%d' % n, meta(edition=3 if n % 2 else 4), [101000, fac, 1001], subsets=[[n] + [k % 120 for k in range(n)]])
+    for n in ([256] if tier == 'quick' else [255, 256, 300, 1024]):
+        add('subsets_%d_uncompressed' % n, meta(n_subsets=n), [1001, 1002], subsets=[[k % 127, (k * 7) % 1000] for k in range(n)])
+        add('subsets_%d_compressed' % n, meta(n_subsets=n, is_compressed=True), [1001, 1002],
+            columns=[[k % 127 for k in range(n)], [(k * 7) % 1000 for k in range(n)]])
+    # a bitmap of 300 bits over 300 elements, quality values for its zero bits, then substituted values re-using it
+    nb = 300
+    bits = [0 if k % 3 == 0 or k >= 297 else 1 for k in range(nb)]
+    nz = bits.count(0)
+    ids = [101255, 1001, 101045, 1002, 222000, 236000, 101000, 31002, 31031, 101000, 31002, 33007,
+           223000, 237000, 101000, 31002, 223255]
+    sub = [k % 100 for k in range(255)] + [k % 900 for k in range(45)] + [nb] + bits + [nz] + [k % 60 for k in range(nz)] + \
+          [nz] + [(k * 5) % 900 if (3 * k >= 255) else (k * 5) % 100 for k in range(nz)]
+    add('bitmap_300_bits', meta(), ids, subsets=[sub])
+    add('bitmap_300_bits_compressed', meta(n_subsets=2, is_compressed=True), ids, columns=[[x, x] for x in sub])
+    add('character_255_octets', meta(), [205255, 208255, 1015, 208000, 1015], subsets=[[bytes(range(32, 127)) * 2 + b'x' * 65,
+                                                                                     b'BUFR' + b' ' * 251, b'station             ']])
+    add('descriptor_list_of_300', meta(edition=3), [1001, 1002] * 150, subsets=[[k % 100 for k in range(300)]])
+    add('section2_of_300_octets', meta(section2=bytes(range(256)) + b'BUFR7777' + b'\0' * 36), [1001], subsets=[[5]])
+    for name, c in out:
+        c.features.add('boundary_' + name)
+    return out
